@@ -215,7 +215,8 @@ def session_history(seed):
             for it in items:
                 fr = G.encode_request(G.mkreq(v, [it]))
                 frames.append(fr)
-                for kind in ("cutvalue", "cutvalue", "cutvalue", "textlen", "inflate", "truncate", "type", "flip"):
+                for kind in ("cutvalue", "cutvalue", "cutvalue", "textlen", "inflate", "truncate", "type", "flip",
+                             "transparent", "emptystring"):
                     frames.append(sg.mutate(fr, kind)[0])
     rig = S.Rig()
     lg.disable(lg.NOTSET)
